@@ -112,7 +112,7 @@ pub fn replay(r: &Value) -> Result<String, (String, String)> {
                 "C01" => c01_check(&case, op.unwrap(), f32_run, pairing, &w).map(|n| format!("{} witnesses agree", n)),
                 "C02" => c02_check(&case, op.unwrap(), f32_run, &w, &mut StructStats::default()).map(|_| "structure valid".to_string()),
                 "C04" => c04_check(&case, op.unwrap(), f32_run, &mut ProvStats::default()).map(|_| "provenance valid".to_string()),
-                "C05" => c05_check(&case, f32_run, &w).map(|n| format!("{} witnesses consistent", n)),
+                "C05" => c05_check_through(&case, f32_run, &w, pairing).map(|n| format!("{} witnesses consistent", n)),
                 "C03" => c03_check(&case, op.unwrap(), f32_run).map(|_| "returns normally".to_string()),
                 "C06" => c06_check(&case, f32_run, &mut Default::default()).map(|_| "laws hold".to_string()),
                 "C07" => {
